@@ -15,7 +15,16 @@ Stale-objects dimension (stale_dimension): the same oracle on the state that the
 real set-up of plan B leaves when the packet filter already holds the objects of
 an earlier session A on the same ports that was killed after k commands of its
 set-up; both sessions' commands are executed by the kernel model of C04
-(coq/Model/FwLife.v behind bin/c04_driver as a co-process)."""
+(coq/Model/FwLife.v behind bin/c04_driver as a co-process).
+
+pf main-ruleset dimension (pf_main_dimension): the rules in sshuttle's anchor decide
+only where the MAIN ruleset calls the anchor.  The real set-up runs on main rulesets
+that already hold the rdr-anchor call only / the anchor call only / both / neither /
+calls for other ports (incl. names that contain this port's name or are contained in
+it), and the verdict oracle is judged on the COMPLETE state at STARTED — the main
+ruleset's anchor calls + the enable state + the anchors (coq/Model/FwPfHook.v
+pf_state_verdict_of).  The stale-objects dimension judges pf on the same complete
+state (a session killed between the two add_anchors ioctls leaves one call)."""
 import io
 import ipaddress
 import json
@@ -37,12 +46,19 @@ RULE = ("plans x packets: 0-12 entries per family (widths concentrated at 0,8,24
         "flipped include<->exclude / widened / narrowed, name servers kept / dropped / new, DNS port same or other, nat owner same "
         "or other, tproxy udp/mark independent); A's real set-up from an empty packet filter, cut after k external commands (the "
         "complete set-up and 2 (quick) / 5 (thorough) other k; every k for the fixed pairs), then B's real set-up on that state; "
-        "packets from both plans' cells; distinct by (method, A, k, B)")
+        "packets from both plans' cells; distinct by (method, A, k, B). "
+        "pf main-ruleset dimension (FreeBSD, Darwin, OpenBSD): 3 fixed plans (both families on one port; port 1230 next to "
+        "12300) + 4 (quick) / 150 (thorough) generated plans x starting main rulesets {neither, rdr-anchor only, anchor only, "
+        "both, both in the other order, calls for other ports only (port/10, port*10, '1'+port, port without its first digit, "
+        "port+1, the other family's name form), each single call + those, rdr-anchor of this port with anchor of the others "
+        "and vice versa, per-family mixes, random subsets}; OpenBSD: anchor calls only; verdicts judged on main ruleset + "
+        "enable state + anchors after the real set-up; distinct by (method, plan, starting calls)")
 TRUSTED_BASE = [
     "MODELLED, not verified: the kernel packet filter (coq/Model/FwWalk.v): iptables/ip6tables/nft first-match chain walk with jumps, RETURN, non-terminating MARK; mangle OUTPUT before nat OUTPUT; policy re-routing of packets carrying the tproxy mark to lo and hence PREROUTING; `inet` nft tables see both families; pf last-match filter rules, first-match rdr, route-to lo0; address text is parsed by the tools to the number the harness computes with Python's ipaddress module",
     "thorough tier validates the Linux part of that model against the real kernel in fresh network namespaces: (a) the recorded iptables/ip6tables command lists are executed by the real tools and iptables-save is compared (count, per-chain order, target, destination); (b) real verdicts: the emitted nat / nft / tproxy rules are loaded, listeners sit on the redirect and DNS ports, ~2000 TCP connects / UDP datagrams per run go to sampled cell representatives (both families, routed via lo, tproxy with the documented fwmark policy routing and IP_TRANSPARENT listeners) and who receives each probe is compared with the modelled walk; pf cannot be validated on this image (no BSD) and rests on pf.conf(5)",
     "CPython sorted() is stable and reverse=True keeps equal keys in original order (checked on every run by the token-for-token comparison, which contains equal-key entries)",
     "stale-objects dimension: the kernel that executes the commands of both sessions is the MODELLED kernel of C04 (coq/Model/FwLife.v `exec` behind drivers/c04_driver.ml as a co-process: iptables -N/-F/-X/-I 1/-A/-D/-nL per family and table with `-X` refused for a non-empty or referenced chain, nft add table/add chain idempotent, flush chain, add rule, delete table, pfctl anchor load = replacement, enable/-E tokens, anchor calls; rules are opaque argv there); the state it holds at STARTED is parsed by this harness into the rule AST of Model/FwRules.v (same parser as for the recorded argv) and walked by Model/FwWalk.v; the thorough tier replays such two-session command sequences (incl. the failing -D / -X / -N of restore_firewall and of refused starts) with the real iptables / ip6tables / nft in fresh network namespaces and compares every exit status and the number of rules per chain at the end with that kernel model (pf: not validatable here)",
+    "pf complete state (coq/Model/FwPfHook.v, MODELLED from pf.conf(5) ANCHORS, not validatable on this image): an anchor's rdr rules are evaluated only through `rdr-anchor \"<name>\"` in the main ruleset, its pass rules only through `anchor \"<name>\"`, nothing while pf is disabled; OpenBSD has filter rules only; the main ruleset's calls are read from the C04 kernel model's state (pf_calls, appended by the DIOCCHANGERULE ioctl whose pfioc_rule buffer the harness decodes: action, rule kind, anchor name), its `pfctl -s all` answer prints them as FwLife.v pf_status_lines does (TRANSLATION RULES / FILTER RULES sections, one `rdr-anchor \"n\" all` / `anchor \"n\" all` line each); foreign rules of the main ruleset other than anchor calls (a `block` or `pass quick` ahead of the anchor call) are not modelled",
     "harness/props/c03.py: generators, recorders replacing linux.ssubprocess / pf.pfctl / pf.ioctl / pf.pf_get_dev / pf.ssubprocess, argv parser (round-trip checked through the model's printer)",
 ]
 ASSUMPTIONS = [
@@ -894,8 +910,12 @@ def dec_kstate(s):
             nft.append((_unhx(n), dec_ktable(t)))
     q = f[5].split(",")
     anchors = [tuple(_unhx(y) for y in c.split(".")) for c in q[7].split("+")] if q[7] else []
+    # pf MAIN ruleset (drivers/c04_driver.ml str_of_pf: ld,on,refs,next,skip,main,calls,anchors): the anchor calls
+    # ("r" = rdr-anchor, "p" = anchor) and whether pf is enabled (FwLife.v pf_enabled: -e or an outstanding -E token)
+    calls = [(c[0], _unhx(c[2:])) for c in q[6].split("+")] if q[6] else []
     return {"v6nat": dec_ktable(f[0]), "v6mangle": dec_ktable(f[1]), "v4nat": dec_ktable(f[2]),
-            "v4mangle": dec_ktable(f[3]), "nft": nft, "anchors": anchors}
+            "v4mangle": dec_ktable(f[3]), "nft": nft, "anchors": anchors, "pf_calls": calls,
+            "pf_enabled": q[0] == "1" and (q[1] == "1" or q[2] != "")}
 
 
 def kernel_for(ctx):
@@ -1044,9 +1064,48 @@ def state_rules(method, pl, st):
         for fam in (4, 6):
             if not fam_active(pl, fam):
                 continue
-            text = anchors.get(("sshuttle%s-%d" % ("6" if fam == 6 else "", pl["port%d" % fam])).encode())
+            name = pf_anchor_name(pl, fam)
+            text = anchors.get(name)
             enc[fam] = parse_pf(text) if text else []
+            # the complete state: the anchor's rules + whether the main ruleset calls it + the enable state
+            # (coq/Model/FwPfHook.v pf_hook; walked by pf_state_verdict_of)
+            enc.setdefault("hook", {})[fam] = "H%d%d%d" % (st["pf_enabled"], ("r", name) in st["pf_calls"],
+                                                           ("p", name) in st["pf_calls"])
     return enc
+
+
+def pf_anchor_name(pl, fam):
+    return ("sshuttle%s-%d" % ("6" if fam == 6 else "", pl["port%d" % fam])).encode()      # pf.py:449-451
+
+
+def pf_hook_report(method, pl, st):
+    """what of the complete pf state keeps the rules in the session's anchors from being evaluated:
+    (generic text for the violation's `what`, details for the replay file); ('', None) = nothing"""
+    if not method.startswith("pf"):
+        return "", None
+    gen = []
+    if not st["pf_enabled"]:
+        gen.append("pf is not enabled")
+    no_r = no_p = False
+    for fam in (4, 6):
+        if not fam_active(pl, fam):
+            continue
+        name = pf_anchor_name(pl, fam)
+        no_r = no_r or (method != "pfo" and ("r", name) not in st["pf_calls"])
+        no_p = no_p or ("p", name) not in st["pf_calls"]
+    if no_r:
+        gen.append('the main ruleset has no `rdr-anchor "sshuttle[6]-<port>"` call for the session\'s anchor (its rdr rules '
+                   'are never evaluated)')
+    if no_p:
+        gen.append('the main ruleset has no filter `anchor "sshuttle[6]-<port>"` call for the session\'s anchor (its '
+                   'pass out / route-to lo0 rules are never evaluated: nothing is diverted)')
+    if not gen:
+        return "", None
+    detail = {"pf_enabled": st["pf_enabled"],
+              "main_ruleset_anchor_calls_after_setup": ['%s "%s"' % ("rdr-anchor" if k == "r" else "anchor", n.decode("latin1"))
+                                                        for k, n in st["pf_calls"]],
+              "session_anchors": [pf_anchor_name(pl, fam).decode() for fam in (4, 6) if fam_active(pl, fam)]}
+    return "; ".join(gen), detail
 
 
 def walk_state(ctx, method, pl, enc, pkts):
@@ -1062,8 +1121,8 @@ def walk_state(ctx, method, pl, enc, pkts):
         idx = [i for i, p in enumerate(pkts) if p["fam"] == fam]
         if not idx:
             continue
-        r = ctx.run_driver(["WALKR %s %s %s %s" % (mm, ",".join(pkt_token(pkts[i]) for i in idx), tm,
-                                                  " ".join(enc[fam]))])[0].split(" ")
+        r = ctx.run_driver(["WALKR %s %s %s %s" % (mm, ",".join(pkt_token(pkts[i]) for i in idx),
+                                                  enc.get("hook", {}).get(fam, tm), " ".join(enc[fam]))])[0].split(" ")
         for i, v in zip(idx, r):
             real[i] = v
     return real
@@ -1094,12 +1153,16 @@ F140_TEXT = ("nat with --user/--group: the owner MARK rule sits in the built-in 
              "says traffic of another owner is left alone")
 
 
-def stale_eval(ctx, method, plA, kdesc, plB, st, pkts):
-    """oracle of plan B on the kernel state `st` reached by the real set-up of B over what A left.
-    Returns list of failing (packet, got, want, finding)."""
+def stale_eval(ctx, method, plA, kdesc, plB, st, pkts, main=None):
+    """oracle of plan B on the COMPLETE kernel state `st` (pf: main ruleset's anchor calls + enable state + anchors)
+    reached by the real set-up of B over what A left / (main is not None) on a main ruleset that held the anchor calls
+    `main` before.  Returns list of failing (packet, got, want, finding)."""
     mm = model_name(method)
-    desc = {"method": method, "plan": {k: v for k, v in plB.items() if k != "anchors"},
-            "stale": {"plan": {k: v for k, v in plA.items() if k != "anchors"}, "after_commands": kdesc}}
+    desc = {"method": method, "plan": {k: v for k, v in plB.items() if k != "anchors"}}
+    if main is None:
+        desc["stale"] = {"plan": {k: v for k, v in plA.items() if k != "anchors"}, "after_commands": kdesc}
+    else:
+        desc["main_ruleset"] = main
     try:
         enc = state_rules(method, plB, st)
     except ParseError as e:
@@ -1148,8 +1211,17 @@ def stale_eval(ctx, method, plA, kdesc, plB, st, pkts):
                     ctx.violation("nat: the owner MARK rule of a killed session with another --user/--group stays in "
                                   "mangle OUTPUT: that owner's traffic is diverted", rep)
                 else:
-                    ctx.violation("%s: set-up over the objects a killed session left on the same port: verdict differs "
-                                  "from the specification of the running session's entries" % method, rep)
+                    hook, detail = pf_hook_report(method, plB, st)
+                    if detail:
+                        rep["pf_state"] = detail
+                    if main is None:
+                        what = ("%s: set-up over the objects a killed session left on the same port: verdict differs "
+                                "from the specification of the running session's entries" % method)
+                    else:
+                        what = ("%s: set-up on a main ruleset that already held anchor calls (rdr-anchor only / anchor only "
+                                "/ both / other ports): verdict on the complete state (main ruleset + anchors) differs from "
+                                "the specification of the session's entries" % method)
+                    ctx.violation(what + (" — " + hook if hook else ""), rep)
             fails.append((p, r, want, finding))
         elif r != e[mm] and not owner_differs:
             # outside the property's scope (or agreeing with it by accident): the state must still decide as the model's
@@ -1386,6 +1458,108 @@ F140_PKT = {"fam": 4, "dst": addr_num("192.168.1.1"), "proto": "tcp", "dport": 8
             "uid": 1000, "gid": 100, "sock": False, "srclo": False}
 
 
+# ----------------------------------------------------------------- pf: the main ruleset the set-up finds
+# The rules sshuttle loads into the anchors `sshuttle-<port>` / `sshuttle6-<port>` decide nothing by themselves: pf
+# evaluates them only where the MAIN ruleset calls the anchor (`rdr-anchor "<name>"` for its translation rules,
+# `anchor "<name>"` for its filter rules; pf.conf(5) ANCHORS).  pf.py adds the missing calls (add_anchors, two separate
+# ioctls, never removed at exit), so what the set-up finds there varies: nothing (first run), both calls (later runs),
+# only one of them (an earlier run died between the two ioctls / pf.conf names only one / the filter rules were
+# reloaded), and calls for OTHER ports whose names contain this port's name or are contained in it.  The property's
+# "the rules installed ... divert ..." is judged on the complete state after the real set-up: main ruleset's calls +
+# enable state + anchor content (state_rules), walked by the extracted pf_state_verdict_of (coq/Model/FwPfHook.v;
+# theorems c03_pf_state_tcp / c03_pf_state_no_filter_call / c03_pf_state_disabled).
+def pf_main_variants(rng, method, pl, nrandom):
+    """[(label, [(kind, name bytes)...])]: anchor calls put into the main ruleset before the real set-up runs"""
+    fams = [fam for fam in (4, 6) if fam_active(pl, fam)]
+    own = {fam: pf_anchor_name(pl, fam) for fam in fams}
+    R = lambda n: ("r", n)                                         # noqa: E731
+    P = lambda n: ("p", n)                                         # noqa: E731
+    others = []
+    for fam in fams:
+        port, pre = pl["port%d" % fam], ("sshuttle6-" if fam == 6 else "sshuttle-")
+        for q in {port // 10, port * 10, int("1%d" % port), int(str(port)[1:] or "0"), port + 1}:
+            if q and q != port:
+                others.append((pre + str(q)).encode())            # 1230 / 123000 / 112300 / 2300 vs 12300
+        others.append((("sshuttle-" if fam == 6 else "sshuttle6-") + str(port)).encode())   # the other family's name form
+    others = [n for n in dict.fromkeys(others) if n not in own.values()]
+    both_others = [c for n in others for c in (R(n), P(n))]
+    v = [("neither", []),
+         ("rdr-anchor only", [R(own[f]) for f in fams]),
+         ("anchor only", [P(own[f]) for f in fams]),
+         ("both", [c for f in fams for c in (R(own[f]), P(own[f]))]),
+         ("both, filter call first", [c for f in fams for c in (P(own[f]), R(own[f]))]),
+         ("calls for other ports only", both_others),
+         ("rdr-anchor only + calls for other ports", both_others[:len(both_others) // 2] + [R(own[f]) for f in fams]
+          + both_others[len(both_others) // 2:]),
+         ("anchor only + calls for other ports", [P(own[f]) for f in fams] + both_others),
+         ("rdr-anchor of this port, anchor of other ports", [R(own[f]) for f in fams] + [P(n) for n in others]),
+         ("anchor of this port, rdr-anchor of other ports", [R(n) for n in others] + [P(own[f]) for f in fams])]
+    if len(fams) == 2:
+        v.append(("IPv4: rdr-anchor only, IPv6: both", [R(own[4]), R(own[6]), P(own[6])]))
+        v.append(("IPv6: anchor only, IPv4: neither", [P(own[6])]))
+    for _ in range(nrandom):
+        cs = [c for f in fams for c in (R(own[f]), P(own[f])) if rng.random() < 0.5]
+        cs += [c for c in both_others if rng.random() < 0.3]
+        rng.shuffle(cs)
+        v.append(("random subset", cs))
+    if method == "pfo":
+        # OpenBSD has no rdr-anchor statement (filter rules only; pf.py:275-281): such a line cannot be in its main ruleset
+        seen, w = set(), []
+        for label, cs in v:
+            cs = [c for c in cs if c[0] == "p"]
+            if tuple(cs) not in seen:
+                seen.add(tuple(cs))
+                w.append((label, cs))
+        v = w
+    return v
+
+
+def pf_main_case(ctx, kern, method, pl, label, calls, pkts):
+    """the real set-up of pl on a packet filter whose main ruleset already holds `calls`; oracle on the complete state"""
+    kern.set(kern.empty)
+    for kind, name in calls:
+        rc, _, _ = kern.cmd([b"ioctl-add-anchor", b"rdr" if kind == "r" else b"pass", name])
+        if rc:
+            raise KernelError("ioctl-add-anchor refused")
+    main = {"label": label, "calls": [[kind, name.decode("latin1")] for kind, name in calls]}
+    desc = {"method": method, "plan": {k: v for k, v in pl.items() if k != "anchors"}, "main_ruleset": main}
+    st0 = kern.get()
+    status = run_real_k(method, pl, kern)
+    ctx.count("pf_main_runs_%s" % method)
+    ctx.count("pf_main_start_%s" % label.replace(" ", "_").replace(",", "").replace(":", ""))
+    if status != "STARTED":
+        ctx.disagree("pf main-ruleset dimension: the session does not reach STARTED", desc, status, "STARTED")
+        return []
+    st = dec_kstate(kern.get())
+    # calls that were there before stay, in order (foreign / earlier calls are never removed or duplicated by add_anchors)
+    before = dec_kstate(st0)["pf_calls"]
+    if st["pf_calls"][:len(before)] != before:
+        ctx.disagree("pf main-ruleset dimension: anchor calls present before the set-up were changed", desc,
+                     st["pf_calls"], before)
+    fails = stale_eval(ctx, method, None, None, pl, st, pkts, main=main)
+    ctx.case(("pfmain", method, plan_tokens(pl), label, tuple(calls)), nontrivial=bool(pl["entries"]), sample=None)
+    return fails
+
+
+def pf_main_dimension(ctx, kern, rng):
+    quick = ctx.quick()
+    fixed = [pf_reachable(STALE_A), pf_reachable(STALE_B),
+             pf_reachable(dict(STALE_A, port4=1230, port6=12300, dns4=1229, dns6=12299))]
+    for m in ("pff", "pfd", "pfo"):
+        for pl in fixed:
+            for label, calls in pf_main_variants(rng, m, pl, 2 if quick else 12):
+                pf_main_case(ctx, kern, m, pl, label, calls, gen_packets(rng, pl, 12 if quick else 30))
+    for i in range(4 if quick else 150):
+        pl = gen_plan(rng, small=(i % 2 == 0))
+        for m in ("pff", "pfd", "pfo"):
+            v = pf_reachable(variant(rng, pl, m))
+            if not (fam_active(v, 4) or fam_active(v, 6)):
+                continue
+            vs = pf_main_variants(rng, m, v, 2 if quick else 6)
+            for label, calls in (rng.sample(vs, min(4, len(vs))) if quick else vs):
+                pf_main_case(ctx, kern, m, v, label, calls, gen_packets(rng, v, 12 if quick else 30))
+
+
 def stale_packets(rng, plA, plB, n):
     return gen_packets(rng, plB, n) + gen_packets(rng, plA, n)
 
@@ -1426,6 +1600,9 @@ def stale_dimension(ctx):
                     va, vb = pf_reachable(va), pf_reachable(vb)
                 stale_case(ctx, kern, m, va, vb, stale_packets(rng, va, vb, npk), rng=rng,
                            nprefix=(2 if quick else 5))
+        # ---- pf: the main ruleset the set-up finds (anchor calls of this / other ports already there)
+        import random as _random
+        pf_main_dimension(ctx, kern, _random.Random(ctx.seed * 104729 + 77))      # own stream
         if not quick:
             stale_netns_validate(ctx, kern, rng)
     finally:
@@ -1705,6 +1882,18 @@ def replay(ctx, rp):
         print("nothing replayable in", rp.get("kind"))
         return False
     pl = dict(r["plan"], anchors={4: [0], 6: [0]})
+    if "main_ruleset" in r:
+        # set-up of r["plan"] on a pf main ruleset that already holds the anchor calls r["main_ruleset"]["calls"]
+        kern = kernel_for(ctx)
+        try:
+            mf = pf_main_case(ctx, kern, r["method"], pl, r["main_ruleset"].get("label", "replay"),
+                              [(k, n.encode("latin1")) for k, n in r["main_ruleset"]["calls"]], [r["packet"]])
+        finally:
+            kern.close()
+        for p, got, want, finding in mf:
+            print("method %s, main ruleset held %r before the set-up, packet %r: complete state (main ruleset + anchors) "
+                  "gives %s, specification demands %s" % (r["method"], r["main_ruleset"]["calls"], p, got, want))
+        return bool(mf) or bool(ctx.disagreements)
     if "stale" in r:
         # set-up of r["plan"] over what r["stale"]["plan"] left after that many commands of its own set-up
         kern = kernel_for(ctx)
